@@ -226,7 +226,9 @@ def main(argv=None):
             errors.append((r["id"], "vacuity guard: %d obligations generated, at least %d expected" % (
                 r.get("obligations", 0), getattr(t, "min_obligations", 1))))
         for c in getattr(t, "expect_covers", ()):
-            if c not in r.get("covers", []) and not r.get("unsupported"):
+            # (a target whose every path ends in a refuted obligation -- e.g. the changed code does not terminate -- reports
+            # those refutations; the cover guard is about silent vacuity)
+            if c not in r.get("covers", []) and not r.get("unsupported") and not r.get("refuted"):
                 errors.append((r["id"], "vacuity guard: cover point %r was not reached on any path" % c))
         for u in r.get("undecided", []):
             undecided.append((u["obligation"], "solver: " + str(u.get("reason"))))
